@@ -26,6 +26,7 @@ import (
 	"context"
 	"errors"
 	"fmt"
+	"net"
 	"sort"
 	"strconv"
 	"strings"
@@ -34,6 +35,7 @@ import (
 	"time"
 
 	"github.com/pion/logging"
+	"github.com/pion/stun/v3"
 )
 
 func init() { vComponents["apiatomic"] = &vComp{gen: vAtomicGen, exec: vAtomicExec} }
@@ -321,12 +323,175 @@ func vaSnapshot(r *vRand) string {
 	return "ok"
 }
 
+// vaUrls: the URL list installed by WithUrls belongs to the gathering cycles that captured it (the cycle's context
+// carries the slice and the gather goroutines read it off the loop): a later UpdateOptions(WithUrls(…)) installs a
+// NEW list and must not write into the old one.
+func vaUrls(r *vRand) string {
+	mk := func(n, salt int) []*stun.URI {
+		out := make([]*stun.URI, 0, n+r.intn(3))
+		for i := 0; i < n; i++ {
+			u, err := stun.ParseURI(fmt.Sprintf("stun:192.0.2.%d:%d", 1+salt%200, 3478+i))
+			if err != nil {
+				panic(err)
+			}
+			out = append(out, u)
+		}
+
+		return out
+	}
+	a, err := vaAgent(WithCandidateTypes([]CandidateType{CandidateTypeHost, CandidateTypeServerReflexive}), WithUrls(mk(2+r.intn(3), 1)))
+	if err != nil {
+		return "error " + err.Error()
+	}
+	defer func() { _ = a.Close() }()
+	for round := 0; round < 8; round++ {
+		var held []*stun.URI
+		if err := a.loop.Run(a.loop, func(context.Context) { held = a.urls }); err != nil {
+			return "error " + err.Error()
+		}
+		want := append([]*stun.URI{}, held...)
+		texts := make([]string, len(held))
+		for i, u := range held {
+			texts[i] = u.String()
+		}
+		if err := a.UpdateOptions(WithUrls(mk(r.intn(len(held)+2), 2+round))); err != nil {
+			return "error " + err.Error()
+		}
+		for i := range held {
+			if held[i] != want[i] || held[i].String() != texts[i] {
+				return fmt.Sprintf("atomicity urls: UpdateOptions(WithUrls) wrote into the URL list a running gathering cycle may still hold (entry %d: %s became %s)",
+					i, texts[i], held[i])
+			}
+		}
+	}
+
+	return "ok"
+}
+
+// vaRenomRole: RenominateCandidate is one whole operation: its "only the controlling agent" test and the nomination it
+// sends must see the same role.  The loop is held busy; a Binding request revealing a role conflict that the agent
+// loses is queued (receive loop), then RenominateCandidate; whatever order the loop serves them in, no Binding
+// request with USE-CANDIDATE / a nomination value may leave the agent while its role is controlled.
+type vaRoleConn struct {
+	*vhConn
+	a    atomic.Pointer[Agent]
+	bad  atomic.Int32
+	sent atomic.Int32
+}
+
+func (c *vaRoleConn) WriteTo(b []byte, addr net.Addr) (int, error) {
+	if a := c.a.Load(); a != nil && stun.IsMessage(b) {
+		m := &stun.Message{Raw: append([]byte{}, b...)}
+		if m.Decode() == nil && m.Type.Class == stun.ClassRequest &&
+			(m.Contains(stun.AttrUseCandidate) || m.Contains(a.nominationAttribute)) {
+			c.sent.Add(1)
+			if !a.isControlling.Load() {
+				c.bad.Add(1)
+			}
+		}
+	}
+
+	return c.vhConn.WriteTo(b, addr)
+}
+
+func vaRenomRole(r *vRand) string {
+	h := newVhHub()
+	a, err := vaAgent(WithRenomination(func() uint32 { return 7 }))
+	if err != nil {
+		return "error " + err.Error()
+	}
+	defer func() { _ = a.Close() }()
+	a.tieBreaker = 5
+	local, err := NewCandidateHost(&CandidateHostConfig{Network: "udp", Address: "10.0.0.1", Port: 5000, Component: 1})
+	if err != nil {
+		return "error " + err.Error()
+	}
+	conn := &vaRoleConn{vhConn: h.listen(&net.UDPAddr{IP: net.ParseIP("10.0.0.1"), Port: 5000})}
+	peer := h.listen(&net.UDPAddr{IP: net.ParseIP("10.0.0.2"), Port: 5000})
+	if err := a.addCandidate(context.Background(), local, conn); err != nil {
+		return "error " + err.Error()
+	}
+	remote, err := NewCandidateHost(&CandidateHostConfig{Network: "udp", Address: "10.0.0.2", Port: 5000, Component: 1})
+	if err != nil {
+		return "error " + err.Error()
+	}
+	if err := a.AddRemoteCandidate(remote); err != nil {
+		return "error " + err.Error()
+	}
+	if _, err := a.StartDial("remoteufrag", "remotepassword-0123456789abcdef"); err != nil {
+		return "error " + err.Error()
+	}
+	conn.a.Store(a)
+	lu, lp, _ := a.GetLocalUserCredentials()
+	// a request from the peer that also claims to be controlling, with the greater tie-breaker: the agent must switch
+	req, err := stun.Build(stun.BindingRequest, stun.TransactionID, stun.NewUsername(lu+":remoteufrag"),
+		AttrControlling(99), PriorityAttr(100), stun.NewShortTermIntegrity(lp), stun.Fingerprint)
+	if err != nil {
+		return "error " + err.Error()
+	}
+	release := make(chan struct{})
+	entered := make(chan struct{})
+	go func() {
+		_ = a.loop.Run(a.loop, func(context.Context) {
+			close(entered)
+			<-release
+		})
+	}()
+	<-entered
+	var renomErr error
+	done := make(chan struct{})
+	first := r.chance(1, 2)
+	sendReq := func() { _, _ = peer.WriteTo(req.Raw, conn.addr) }
+	callRenom := func() {
+		go func() {
+			defer close(done)
+			locals, _ := a.localCandidates[NetworkTypeUDP4], 0
+			var l Candidate = local
+			if len(locals) > 0 {
+				l = locals[0]
+			}
+			renomErr = a.RenominateCandidate(l, remote)
+		}()
+	}
+	if first {
+		sendReq()
+		time.Sleep(2 * time.Millisecond)
+		callRenom()
+	} else {
+		callRenom()
+		time.Sleep(2 * time.Millisecond)
+		sendReq()
+	}
+	time.Sleep(3 * time.Millisecond)
+	close(release)
+	select {
+	case <-done:
+	case <-time.After(10 * time.Second):
+		return "hung"
+	}
+	// let the queued inbound request be served too
+	for i := 0; i < 200 && a.isControlling.Load(); i++ {
+		time.Sleep(100 * time.Microsecond)
+	}
+	_ = a.loop.Run(a.loop, func(context.Context) {})
+	if n := conn.bad.Load(); n > 0 {
+		return fmt.Sprintf("atomicity renomrole: %d Binding request(s) with USE-CANDIDATE / nomination left the agent while its role was controlled (RenominateCandidate returned %v)", n, renomErr)
+	}
+	if renomErr != nil && !errors.Is(renomErr, ErrOnlyControllingAgentCanRenominate) && !errors.Is(renomErr, ErrCandidatePairNotFound) {
+		return "error renomrole: " + renomErr.Error()
+	}
+
+	return "ok"
+}
+
 var vaScenarios = map[string]func(*vRand) string{
-	"start":    vaStart,
-	"restart":  vaRestart,
-	"creds":    vaCreds,
-	"gather":   vaGather,
-	"snapshot": vaSnapshot,
+	"start":     vaStart,
+	"restart":   vaRestart,
+	"creds":     vaCreds,
+	"gather":    vaGather,
+	"snapshot":  vaSnapshot,
+	"urls":      vaUrls,
+	"renomrole": vaRenomRole,
 }
 
 func vAtomicExec(o *vOut, t []string) string {
